@@ -138,7 +138,7 @@ theorem listen (h : KInv cfg k) (fd b : Nat) : KInv cfg (k.listen fd b) := by
 theorem openSock (h : KInv cfg k) (a b : Bool) : KInv cfg (k.openSock a b).1 :=
   h.insertSock (by intro t ht; simp at ht)
 
-theorem pollConnect (h : KInv cfg k) (fd : Nat) (peer : SockAddr) : KInv cfg (k.pollConnect fd peer).1 := by
+theorem pollConnect (h : KInv cfg k) (fd : Nat) (peer : SockAddr) : KInv cfg (k.pollConnect cfg fd peer).1 := by
   unfold Kernel.pollConnect
   split
   · exact h
@@ -279,7 +279,7 @@ theorem abortOrReap (h : KInv cfg k) (fd : Nat) (b : Bool) : KInv cfg (Kernel.ab
   dsimp only
   split <;> (split <;> first | exact h.remove _ | exact h.abortWith _ _)
 
-theorem acceptSyn (h : KInv cfg k) (lfd : Nat) (l r : SockAddr) (s : Seg) : KInv cfg (k.acceptSyn lfd l r s) := by
+theorem acceptSyn (h : KInv cfg k) (lfd : Nat) (l r : SockAddr) (s : Seg) : KInv cfg (k.acceptSyn cfg lfd l r s) := by
   unfold Kernel.acceptSyn
   split
   · exact h
@@ -430,7 +430,7 @@ theorem retxPass1Step (acc : Kernel × List Nat × List Nat) (fd : Nat) (h : KIn
     have hc := Tcb.caps_retxTick (cfg := cfg) cfg.retxThreshold cfg.retxMax (h.tcb' ht)
     split <;> exact KInv.setTcb h fd hc
 
-theorem emitHandshake (h : KInv cfg k) (fd : Nat) : KInv cfg (k.emitHandshake fd) := by
+theorem emitHandshake (h : KInv cfg k) (fd : Nat) : KInv cfg (k.emitHandshake cfg fd) := by
   unfold Kernel.emitHandshake
   split
   · exact h
